@@ -440,7 +440,10 @@ class LossScenario(explore.Scenario):
               'tick',
               # a disconnect callback on a proxy that, when it runs, obtains
               # a fresh proxy (explicit interface) on the same connection
-              'pgetE', 'pgetK']
+              'pgetE', 'pgetK',
+              # a call that expects no reply, made with a deadline all the
+              # same (the keyword is accepted for every call)
+              'callNR']
 
     def build(self):
         from txdbus import interface as I
@@ -524,7 +527,15 @@ class LossScenario(explore.Scenario):
         w.used.add(e)
         conn = w.cw.conn
         try:
-            if e.startswith('call'):
+            if e == 'callNR':
+                sink = w.calls.setdefault('callNR', [])
+                d = conn.callRemote('/obj', 'Notify', interface='org.ex.I',
+                                    destination='org.ex.Dest',
+                                    expectReply=False, timeout=4)
+                self._watch(d, sink)
+                w.cw.sent()
+                w.completed.add('callNR')
+            elif e.startswith('call'):
                 i = int(e[4:])
                 timeout = {0: None, 1: 5, 2: 9}[i]
                 sink = w.calls.setdefault(e, [])
@@ -693,6 +704,12 @@ class LossScenario(explore.Scenario):
                                  '%s had been answered with an error reply '
                                  'before the loss; its results are %r'
                                  % (name, sink)))
+            elif name == 'callNR':
+                if sink != [('ok', 'NoneType')]:
+                    viol.append(('%s/loss/no-reply-call' % PROP,
+                                 'a call made with expectReply=False and a '
+                                 'timeout ended as %r, expected to complete '
+                                 'with None at once' % (sink,)))
             elif name in w.completed:
                 if sink != [('ok', 'str')]:
                     viol.append(('%s/loss/completed-call-disturbed' % PROP,
@@ -995,7 +1012,7 @@ def run(ctx):
             ctx, LossScenario,
             {'events': ['call0', 'call1', 'call2', 'reply0', 'cbA', 'cbB',
                         'cancelA', 'cbA2', 'cancelA2', 'error1', 'cbCall',
-                        'tick']},
+                        'tick', 'callNR']},
             max_depth=17, label='loss: calls and callbacks, to the fixpoint')
     else:
         explore.explore(ctx, LossScenario, {'events': ALL}, max_depth=7,
@@ -1017,7 +1034,7 @@ def run(ctx):
             ctx, LossScenario,
             {'events': ['call0', 'call1', 'call2', 'reply0', 'cbA', 'cbB',
                         'cancelA', 'cbA2', 'cancelA2', 'error1', 'cbCall',
-                        'tick']},
+                        'tick', 'callNR']},
             max_depth=17, label='loss: calls and callbacks, to the fixpoint')
     ctx.bounds = {'address_entries': 3}
 
